@@ -76,3 +76,10 @@ package phantoms
 //@ loop 1:
 //@   invariant 0 <= iter && fresh(out)
 //@   invariant forall i int :: 0 <= i && i < len(out) ==> out[i] != nil && out[i].IPNet != nil && len(out[i].IPNet.IP) != 4 && !isV4Mapped(out[i].IPNet.IP)
+
+// The station's selector as registration ingest uses it (result shape only; address well-formedness per subnet is
+// verified on the functions above under C14). Not verified against the body: several legacy selection paths.
+//@ func (p *PhantomIPSelector) Select(seed []byte, generation uint, clientLibVer uint, v6Support bool) (*PhantomIP, error)
+//@   ensures result1 == nil ==> result0 != nil && result0.ip != nil
+//@   assigns nothing
+//@   trusted
